@@ -1,4 +1,5 @@
 //! Reference models, written independently of the code under test.
+pub mod cosmetic;
 pub mod pattern;
 pub mod removeparam;
 pub mod resources;
